@@ -770,9 +770,15 @@ func handleBitwise(left, right interface{}, operator token.Token) interface{} {
 		return leftInt | rightInt
 	case token.XOR:
 		return leftInt ^ rightInt
-	case token.LEFT_SHIFT:
-		return leftInt << rightInt
-	case token.RIGHT_SHIFT:
+	case token.LEFT_SHIFT, token.RIGHT_SHIFT:
+		if rightInt < 0 {
+			// Go panics on a negative shift count
+			utils.RuntimeError(operator, "Shift count must not be negative.")
+			return nil
+		}
+		if operator.Type == token.LEFT_SHIFT {
+			return leftInt << rightInt
+		}
 		return leftInt >> rightInt
 	case token.POWER:
 		return int64(math.Pow(float64(leftInt), float64(rightInt)))
